@@ -91,11 +91,12 @@ Lemma wit_fixed_encap : exists e,
   run_call (CMulti two_reads) [w_encap] = ROk (OTags [{| t_value := None; t_error := Some e |}; {| t_value := None; t_error := Some e |}]).
 Proof. eexists. vm_compute. reflexivity. Qed.
 
-(* what the code still does: the additional status of an error reply is read as service data *)
-Lemma wit_ext2 : wf_error_for (CMulti two_writes) KUnit w_ext2 = true
+(* the additional status of an error reply used to be read as service data (fix: commit 8164fd0) *)
+Lemma wit_fixed_ext2 : wf_error_for (CMulti two_writes) KUnit w_ext2 = true
   /\ exists e, run_call (CMulti two_writes) [w_ext2]
-               = ROk (OTags [{| t_value := Some (VInt 1); t_error := None |}; {| t_value := Some (VInt 2); t_error := Some e |}]).
-Proof. split; [vm_compute; reflexivity|eexists; vm_compute; reflexivity]. Qed.
+               = ROk (OTags [{| t_value := Some (VInt 1); t_error := Some e |}; {| t_value := Some (VInt 2); t_error := Some e |}])
+               /\ names_status service_status extend_codes 5 None e = true.
+Proof. split; [vm_compute; reflexivity|eexists; vm_compute; split; reflexivity]. Qed.
 
 (* ---------------------------------------------------------------- fragmented read: a well-formed error reply ends it *)
 Lemma failed_fragments_tag v : tag_of_response KUnit failed_fragments v = ROk {| t_value := None; t_error := Some fragments_failed |}.
@@ -161,11 +162,10 @@ Proof.
   exact (multi_truthy reqs raw tags i t Hok E Hi Ht).
 Qed.
 
-Lemma wf_errors_guarded c k raw rest : reply_kind c = Some k -> bytes_ok raw = true -> wf_error_for c k raw = true ->
-  match c with CMulti _ => multi_ext_guard raw | _ => false end = false ->
+Lemma wf_errors_falsy c k raw rest : reply_kind c = Some k -> bytes_ok raw = true -> wf_error_for c k raw = true ->
   all_falsy_with_text (run_call c (raw :: rest)).
 Proof.
-  intros Hk Hok Hw Hg. unfold wf_error_for in Hw. apply andb_true_iff in Hw as [Hw Hc].
+  intros Hk Hok Hw. unfold wf_error_for in Hw. apply andb_true_iff in Hw as [Hw Hc].
   assert (Hone : forall f, (exists t, f raw = ROk t /\ falsy_text t) -> all_falsy_with_text (one_reply (raw :: rest) f)).
   { intros f (t & Hf & Ht). unfold one_reply. rewrite Hf. exists [t]. split; [reflexivity|]. split; [discriminate|]. now constructor. }
   destruct c as [dec|dec|v|v n|reqs|k0 dt| |f c]; try discriminate; cbn [run_call].
@@ -174,7 +174,7 @@ Proof.
   - injection Hk as <-. apply Hone, write_wf_error; assumption.
   - injection Hk as <-. apply andb_true_iff in Hc as [Hn Hne].
     assert (Hreqs : reqs <> []) by (destruct reqs; [discriminate|discriminate]).
-    destruct (multi_wf_error reqs raw Hreqs Hok Hw Hn Hg) as (tags & -> & Ht1 & Ht2).
+    destruct (multi_wf_error reqs raw Hreqs Hok Hw Hn) as (tags & -> & Ht1 & Ht2).
     exists tags. auto.
   - destruct k0; try discriminate; injection Hk as <-; apply Hone, generic_wf_error; auto.
 Qed.
